@@ -149,6 +149,46 @@ def run (ctx):
              "the allocator gives up (returns None) on a path that has not scanned for a free slot: once max_buffers packets "
              "have been outstanding, freed slots are never reused and misses carry the whole frame although buffers are free",
              (alloc.module, r), 'D2')
+    # the scan covers every slot: it starts at index 0, or at a remembered position that is provably moved back to (at most)
+    # the index of every slot that is freed
+    for (st, h, a) in g.loop_nodes:
+      if not isinstance(st, ast.For) or h not in scan: continue
+      it = st.iter
+      start = None
+      if isinstance(it, ast.Call) and call_name(it) == 'range' and len(it.args) >= 2: start = it.args[0]
+      elif isinstance(it, ast.Call) and call_name(it) == 'enumerate' and (len(it.args) == 2 or kwarg(it, 'start') is not None):
+        start = None                      # enumerate's start only renumbers, the whole list is visited
+      elif isinstance(it, ast.Subscript) and isinstance(it.slice, ast.Slice) and it.slice.lower is not None: start = it.slice.lower
+      elif isinstance(it, ast.Call) and call_name(it) == 'enumerate' and it.args and isinstance(it.args[0], ast.Subscript) and isinstance(it.args[0].slice, ast.Slice) and it.args[0].slice.lower is not None:
+        start = it.args[0].slice.lower
+      if start is None or (isinstance(start, ast.Constant) and start.value == 0):
+        ctx.ob('R-ALL', alloc, "the free-slot scan visits every slot", True, "scan over the whole list", (alloc.module, st), 'D2'); continue
+      if not (isinstance(start, ast.Attribute) and norm(start.value) == 'self'):
+        ctx.undecided('R-ALL', alloc, "the free-slot scan visits every slot", "scan starts at `%s`" % norm(start), (alloc.module, st), 'D2'); continue
+      hint = start.attr
+      # every place a slot is freed must pull the hint back: hint = min(hint, idx) / `if idx < hint: hint = idx`
+      bad_ = []; n_free = 0
+      for c_ in sw.mro_classes() if hasattr(sw, 'mro_classes') else [sw]:
+        for f_ in c_.methods.values():
+          gf_ = None
+          for kind, site in q.mutations_of_attr(f_.node, BUF):
+            if not (kind == 'setitem' and isinstance(site, ast.Assign) and isinstance(site.value, ast.Constant) and site.value.value is None): continue
+            n_free += 1
+            idx_ = [t.slice for t in site.targets if isinstance(t, ast.Subscript)][0]
+            gf_ = gf_ or q.cfg_of(f_)
+            upd = [(v_, st_) for t_, v_, st_, k_ in q.stores_in(f_.node) if isinstance(t_, ast.Attribute) and t_.attr == hint and norm(t_.value) == 'self' and v_ is not None]
+            ok_ = False
+            for v_, st_ in upd:
+              if isinstance(v_, ast.Call) and call_name(v_) == 'min' and any(norm(x) == norm(idx_) for x in v_.args) and any(norm(x) == 'self.' + hint for x in v_.args): ok_ = True
+              sn_ = q.enclosing_stmt_node(gf_, st_)
+              if norm(v_) == norm(idx_) and sn_ is not None and any(f2 in ('%s < self.%s' % (norm(idx_), hint), 'self.%s > %s' % (hint, norm(idx_))) for f2 in q.fact_strs(gf_, sn_)): ok_ = True
+              if isinstance(v_, ast.Constant) and v_.value == 0: ok_ = True
+            if not ok_: bad_.append((f_, site, [norm(st_) for v_, st_ in upd]))
+      ctx.ob('R-ALL', alloc, "the free-slot scan visits every free slot (it starts at self.%s)" % hint, not bad_ and n_free > 0,
+             "every release moves self.%s back to at most the freed index" % hint if not bad_ else
+             "the scan starts at self.%s, and %s frees slot `%s` %s: after a lower slot and then a higher one are released the start position lies above a free slot, which is never found again - "
+             "misses are sent unbuffered (whole frame) although a buffer is free" % (hint, bad_[0][0].name, norm(bad_[0][1])[:40], ("with `%s`, not the minimum of the old position and the freed index" % bad_[0][2][0]) if bad_[0][2] else "without moving it back"),
+             (alloc.module, st), 'D2')
     # growth only after the scan: the loop's for-node dominates the growth node
     loops = [h for (s, h, a) in g.loop_nodes]
     for k, s, n in grow:
@@ -235,6 +275,30 @@ def run (ctx):
            "the slot is cleared only on paths that emitted the packet" if good else
            "slot is cleared on a path that did not emit its packet (packet lost)", (use.module, s), 'D3')
 
+  # ---- D5 a flow-mod that names a buffer always uses it once its command was dispatched ---------------------------
+  rxf = sw.find_method('_rx_flow_mod')
+  if rxf is not None:
+    ctx.analysed(rxf); gf = q.cfg_of(rxf)
+    un = gf.nodes_with_call(lambda c: call_name(c) == use.name)
+    hc = gf.nodes_with_call(lambda c: (isinstance(c.func, ast.Name) and c.func.id not in ('getattr', 'isinstance', 'len')) or call_name(c).startswith('_flow_mod_'))
+    hc = [n for n in hc if n not in un and any(u in gf.reachable(n) for u in un)]
+    if un and hc:
+      req = rxf.params[1]
+      env = q.Env({'%s.buffer_id is not None' % req: True, '%s.buffer_id is None' % req: False, '%s.buffer_id' % req: 7})
+      r_ = q.reach_under(repo, rxf.module, gf, env, sw, start=hc[-1])
+      seen = set([hc[-1]]); st_ = [hc[-1]]; bypass = False
+      while st_:
+        x = st_.pop()
+        for m_, l_ in x.succ:
+          if l_ == 'exc' or m_ in seen or m_ in un or m_ not in r_: continue
+          if m_ is gf.exit: bypass = True
+          seen.add(m_); st_.append(m_)
+      ctx.ob('R-EFFECT', rxf, "after the command handler ran, a flow-mod that names a buffer always releases it", not bypass,
+             "every normal path from `%s` passes %s" % (hc[-1].text(40), use.name) if not bypass else
+             "with buffer_id set there is a normal path from `%s` to the end of %s that skips %s (the handler's result decides): the flow is changed but the buffered packet is neither forwarded nor freed - the slot leaks"
+             % (hc[-1].text(40), rxf.name, use.name), (rxf.module, hc[-1].ast), 'D3')
+    else:
+      ctx.undecided('R-EFFECT', rxf, "a flow-mod that names a buffer releases it", "handler dispatch / buffer use not found in %s" % rxf.name, rxf, 'D3')
   packet_in_rules(ctx, repo, spi)
 
 def packet_in_rules (ctx, repo, spi):
@@ -291,6 +355,30 @@ def packet_in_rules (ctx, repo, spi):
           why = "total_len expression `%s` not understood" % norm(tl)
         ctx.ob('R-DEF', spi, "total_len reflects the untruncated frame", good,
                why if good is not False else why + ": a buffered miss reports the truncated length", (spi.module, c), 'D4')
+
+  # by evaluation: how many bytes of a 20-byte frame go into the message
+  pk = None
+  for cand in ('packet',) + tuple(spi.params[1:]):
+    if cand in spi.params: pk = cand; break
+  if pk and pin_calls and 'buffer_id' in spi.params and 'data_length' in spi.params:
+    frame = bytes(range(20))
+    wrong = []; unknown = 0; n_sc = 0
+    for bid, dl, want in ((5, 0, 0), (5, 8, 8), (5, 20, 20), (5, 100, 20), (5, None, 20), (None, 8, 20), (None, 0, 20), (None, None, 20)):
+      n_sc += 1
+      c = pin_calls[0]; cn = q.enclosing_stmt_node(g, c); dexpr = kwarg(c, 'data')
+      if dexpr is None or cn is None: unknown += 1; continue
+      env = q.Env({pk: frame, 'buffer_id': bid, 'data_length': dl}, [((lambda e: isinstance(e, ast.Call) and call_name(e) == 'hasattr'), False), ((lambda e: isinstance(e, ast.Call) and call_name(e) == 'assert_type'), True)])
+      got = set()
+      for p_, e_ in q.paths_under(repo, spi.module, g, env, g.entry, [cn], spi.cls, limit=40):
+        try: v_ = q.eval_env2(repo, spi.module, dexpr, e_, spi.cls); got.add(len(v_) if isinstance(v_, bytes) else '?')
+        except Exception: got.add('?')
+      if not got or '?' in got: unknown += 1
+      elif got != {want}: wrong.append((bid, dl, sorted(got), want))
+    if unknown:
+      ctx.undecided('R-AGREE', spi, "a buffered packet-in carries min(frame, miss length) bytes, an unbuffered one the whole frame", "%d of %d scenarios not evaluable" % (unknown, n_sc), spi, 'D4')
+    else:
+      ctx.ob('R-AGREE', spi, "a buffered packet-in carries min(frame, miss length) bytes, an unbuffered one the whole frame", not wrong, "%d scenarios" % n_sc if not wrong else
+             "with buffer_id=%s and data_length=%s a 20-byte frame is sent with %s byte(s) of data, expected %d" % wrong[0], spi, 'D4')
 
 def _free_index (g, node, idx, store, depth=0):
   """can `idx` at `node` only denote a slot that tested free (is None)?"""
